@@ -18,6 +18,7 @@ structure HConf where
   maxReqTimeoutMs : Int         -- int64(MaxReqTimeout / time.Millisecond)
   tlsRefuse : Bool              -- !tlsEnabled && tlsRequired
   cfgNames : List Bytes         -- option names `getOptByCfgName` finds (reflection over Options)
+  cfgStrNames : List Bytes := []  -- those of them whose Go type is `string` (answered as raw text, `HttpFull`)
 
 structure Request where
   method : Bytes
@@ -358,6 +359,15 @@ def doStats (b : Broker) (rq : Request) : Out :=
 
 def asciiLower (s : Bytes) : Bytes := s.map (fun c => if 65 ≤ c ∧ c ≤ 90 then c + 32 else c)
 
+/-- `strings.ToLower` as far as a comparison with an ASCII word can tell: ASCII letters, `İ`
+(U+0130 = C4 B0 → `i`) and the Kelvin sign (U+212A = E2 84 AA → `k`); every other non-ASCII
+sequence stays non-ASCII. -/
+def goLower : Bytes → Bytes
+  | [] => []
+  | 0xC4 :: 0xB0 :: r => 105 :: goLower r
+  | 0xE2 :: 0x84 :: 0xAA :: r => 107 :: goLower r
+  | c :: r => (if 65 ≤ c ∧ c ≤ 90 then c + 32 else c) :: goLower r
+
 def logLevels : List Bytes := [ascii "debug", ascii "info", ascii "warn", ascii "error", ascii "fatal"]
 
 def doConfig (hc : HConf) (b : Broker) (rq : Request) : Out :=
@@ -369,7 +379,7 @@ def doConfig (hc : HConf) (b : Broker) (rq : Request) : Out :=
           || (rq.body.take (hc.maxMsgSize + 1).toNat).isEmpty then resp .s413 "INVALID_VALUE" b
        else if opt = ascii "nsqlookupd_tcp_addresses" then resp .external "*" b
        else if opt = ascii "log_level" then
-         (if logLevels.contains (asciiLower (rq.body.take (hc.maxMsgSize + 1).toNat)) then resp .s200 "*" b
+         (if logLevels.contains (goLower (rq.body.take (hc.maxMsgSize + 1).toNat)) then resp .s200 "*" b
           else resp .s400 "INVALID_VALUE" b)
        else resp .s400 "INVALID_OPTION" b)
     else if hc.cfgNames.contains opt then resp .s200 "*" b
